@@ -293,6 +293,50 @@ def gen_case(rng, stream=None):
     return case
 
 
+def gen_large(rng, big=False):
+    """SIZE of the Hanan grid: a large, mostly free die with 16-28 one-cell regions whose sides give a cell matrix of
+    24x24 .. 39x39 (70 000 .. 200 000 free index rectangles: the candidate set of the ground cover).  Two layouts:
+    'perm' - n regions on a permutation, all 4n lines distinct, (2n+1)^2 cells; 'L' - regions along two borders of
+    the die (touching them), distinct lines along each border, the rest of the die free.  Dyadic coordinates (exact)."""
+    layout = rng.choice(["perm", "L"])
+    if layout == "perm":
+        n = rng.choice([16, 17, 18, 19] if big else [16, 17])
+        cs = [2 * i + 1 for i in range(n)]
+        rs = cs[:]
+        rng.shuffle(rs)
+        nx = ny = 2 * n + 1
+    else:
+        a, b = (rng.randrange(11, 15), rng.randrange(11, 15)) if big else (rng.randrange(11, 13), rng.randrange(11, 13))
+        off = rng.choice([1, 2])                           # 1: the first region of a border is one cell away from the corner
+        cs = [2 * i + off for i in range(a)] + [0] * b
+        rs = [0] * a + [2 * i + off for i in range(b)]
+        nx, ny = 2 * a + off, 2 * b + off
+    if rng.random() < 0.5:
+        cs = [nx - 1 - c for c in cs]                       # any corner of the die
+    if rng.random() < 0.5:
+        rs = [ny - 1 - r for r in rs]
+    q = rng.choice([F(1, 4), F(1, 2), F(1, 8)])
+    xs = lattice_lines(rng, nx, q, 5 * nx, narrow=False)
+    ys = lattice_lines(rng, ny, q, 5 * ny, narrow=False)
+    rects = [(c, r, c + 1, r + 1) for c, r in zip(cs, rs)]
+    rng.shuffle(rects)
+    W, H = xs[-1], ys[-1]
+    regions, fixed = [], []
+    for (i0, j0, i1, j1) in rects:
+        box = [xs[i0], ys[j0], xs[i1], ys[j1]]
+        if rng.random() < 0.15:
+            fixed.append(box)
+        else:
+            regions.append(box + [rng.choice(TAGS)])
+    if not regions:
+        regions.append(fixed.pop() + ["#"])
+    case = {"stream": "large", "W": W, "H": H, "form": "dict", "eps": None, "defect": None,
+            "stats": sorted(lattice_stats(nx, ny, rects)) + ["large-" + layout], "matrix": [nx, ny]}
+    case["fixed"] = [geom_of(b) for b in fixed]
+    case["tree"] = {"width": W, "height": H, "regions": [geom_of(b) + [b[4]] for b in regions]}
+    return case
+
+
 # --------------------------------------------------------------------------
 # the HISTORY of the attached Netlist object (model: coq/Die/NetHistory.v)
 # --------------------------------------------------------------------------
@@ -1478,6 +1522,8 @@ def failure_key(case, why):
 
 
 def shrink(case):
+    if case["stream"] == "large":
+        return                            # (seconds per construction, and the class is the size itself)
     tree = case["tree"]
     regs = tree.get("regions")
     if isinstance(regs, list) and regs and isinstance(regs[0], list):
@@ -1545,13 +1591,17 @@ def run(ctx, out, replay=None):
                 "restoring a module, is_fixed released / set, is_hard, rectangle setters, recenter_rectangles, create_squares + is_fixed; "
                 "relocations go to free lattice boxes, a module fixed where it stands may overlap), with reads of netlist.rectangles / "
                 "num_rectangles / fixed_rectangles() and dies with / without the netlist before, between and after, every construction "
-                "judged against the fixed rectangles the netlist's modules hold at that moment; non-trivial = at least two regions or a refused input; distinct by canonical hash")
+                "judged against the fixed rectangles the netlist's modules hold at that moment; SIZE: 2 (quick) / 10 (thorough) large, mostly free dies "
+                "(stream large: 16-28 one-cell regions on a permutation - all lines distinct - or along two borders, cell matrix 24x24 .. 39x39, "
+                "70 000 - 200 000 free index rectangles; exact coordinates, oracle and correspondence); non-trivial = at least two regions or a refused input; distinct by canonical hash")
     cases = []
     if replay and "case" in replay:
         cases.append(fr.unjson(replay["case"]))
     cases += fr.load_corpus("C01")
     while len(cases) < n:
         cases.append(gen_case(ctx.rng))
+    # (generated after the others, so that these are the cases they were before the large stream existed)
+    cases += [gen_large(ctx.rng, big=not ctx.quick()) for _ in range(2 if ctx.quick() else 10)]
     for c in cases:
         for s in c.get("stats", []):
             out.count("has:" + s)
